@@ -585,7 +585,43 @@ def check_all_send_data(ctx):
     ctx.floor("socket send_data implementations", n_impl, 1)
 
 
+def check_single_writer(ctx):
+    """send_data is an unlocked loop of partial writes: on the HSMS side it has exactly one caller, the send-queue
+    function run by the one receiver thread.  A second writer's bytes land between two partial writes of a message."""
+    repo = ctx.repo
+    callers = []
+    for cls in [repo.cls("HsmsProtocol")] + [c for c in repo.cls("HsmsProtocol").mro[1:] if c.name == "Protocol"]:
+        for mname, m in cls.methods.items():
+            if any((call_name(c) or "").endswith("_connection.send_data") or (call_name(c) or "").endswith("connection.send_data") for c in calls_in(m.node)):
+                callers.append(m)
+    # a private helper that only the send-queue function (or such a helper) calls is part of it
+    cls0 = repo.cls("HsmsProtocol")
+
+    def callers_of(name):
+        short = name.split("__")[-1] if name.startswith("__") else name
+        return [m for m in cls0.methods.values() if any((call_name(c) or "") in (f"self.{name}", f"self._HsmsProtocol{name}") for c in calls_in(m.node))]
+
+    def part_of_send_queue(m, seen=()):
+        if m.name == "_process_send_queue":
+            return True
+        if not m.name.startswith("_") or m.name in seen:
+            return False
+        cs = callers_of(m.name)
+        return bool(cs) and all(part_of_send_queue(c, seen + (m.name,)) for c in cs)
+
+    writers = len(callers)
+    callers = [m for m in callers if not (m.name != "_process_send_queue" and part_of_send_queue(m))]
+    names = sorted(m.qualname for m in callers)
+    ok = writers >= 1 and set(names) <= {"HsmsProtocol._process_send_queue"}
+    for m in callers:
+        ctx.touch(m)
+    extra = [x for x in names if x != "HsmsProtocol._process_send_queue"]
+    ctx.ob("C10.P3", "HsmsProtocol", ok, "the connection is written to by the send-queue function only" if ok else
+           f"{extra or names} write(s) to the connection directly: frames written from another thread interleave with the partial writes of a message in progress", key="single-writer", where=repo.cls("HsmsProtocol").where)
+
+
 def run(ctx):
+    check_single_writer(ctx)
     check_all_send_data(ctx)
     check_helper(ctx)
     from .. import refmodels
